@@ -3,7 +3,7 @@
     The XML text is an input here (it is modelled in the XML layer).
     No proofs here. *)
 From E57 Require Import Base.Prelude Model.Device Model.PagedWriter Model.PagedReader
-  Model.Record Model.PcWriter Model.QueueReader.
+  Model.Record Model.Prog Model.PcWriter Model.QueueReader.
 Local Open Scope monad_scope.
 
 (** * Header *)
@@ -13,7 +13,7 @@ Definition SIGNATURE : list N := [65; 83; 84; 77; 45; 69; 53; 55].   (* "ASTM-E5
 Definition header_fields (phys_length xml_offset xml_length : N) : list (list N) :=
   [SIGNATURE; le_bytes 4 1; le_bytes 4 0; le_bytes 8 phys_length; le_bytes 8 xml_offset;
    le_bytes 8 xml_length; le_bytes 8 1024].
-Definition header_write (phys_length xml_offset xml_length : N) : M pw unit :=
+Definition header_write (phys_length xml_offset xml_length : N) : wprog unit :=
   wr_all (header_fields phys_length xml_offset xml_length).
 
 Record header := mkHeader {
@@ -34,42 +34,42 @@ Definition header_read : M dev header :=
 (** * Blobs *)
 Definition BLOB_HEADER_SIZE : N := 16.
 
-Definition blob_write (data : list N) : M pw (N * N) :=
-  start <- pw_physical_position ;;
-  wr (zeros 16) ;;;
-  wr data ;;;
-  end_offset <- pw_physical_position ;;
-  pw_physical_seek start ;;;
-  wr (zeros 8 ++ le_bytes 8 (((BLOB_HEADER_SIZE + len data + 3) / 4) * 4)) ;;;
-  pw_physical_seek end_offset ;;;
-  relabel EWrite pw_align ;;;
-  ret (start, len data).
+Definition blob_write (data : list N) : wprog (N * N) :=
+  (start <- w_position ;;
+   wr (zeros 16) ;;;
+   wr data ;;;
+   end_offset <- w_position ;;
+   w_seek start ;;;
+   wr (zeros 8 ++ le_bytes 8 (((BLOB_HEADER_SIZE + len data + 3) / 4) * 4)) ;;;
+   w_seek end_offset ;;;
+   wrelabel EWrite w_align ;;;
+   wret (start, len data))%wprog.
 
 (** [io::copy] of a [Take]: single reads until the limit or end of file *)
-Fixpoint copy_loop (fuel : nat) (want : N) (acc : list N) : M pr (list N) :=
+Fixpoint copy_loop (fuel : nat) (want : N) (acc : list N) : rprog (list N) :=
   match fuel with
-  | O => ret acc
+  | O => rret acc
   | S f =>
-      if want =? 0 then ret acc else
-      got <- pr_read (N.min want 8192) ;;
-      match got with
-      | [] => ret acc
-      | _ => copy_loop f (want - len got) (acc ++ got)
-      end
+      if want =? 0 then rret acc else
+      (got <- r_read ERead (N.min want 8192) ;;
+       match got with
+       | [] => rret acc
+       | _ => copy_loop f (want - len got) (acc ++ got)
+       end)%rprog
   end.
 
 Definition U64_MAX : N := 2 ^ 64 - 1.
 
-(** [Blob::read] *)
-Definition blob_read (offset length : N) : M pr (list N) :=
-  relabel ERead (pr_seek_physical offset) ;;;
-  b <- rd 16 ;;
-  if negb (byte_at b 0 =? 0) then fail EInvalid else
-  let section_length := le_num (slice 8 8 b) in
-  if N.min (section_length + 16) U64_MAX <? length then fail EInvalid else
-  data <- (fun s => relabel ERead (copy_loop (S (N.to_nat (N.min length (pr_log_size s)))) length []) s) ;;
-  if negb (len data =? length) then fail EInvalid else
-  ret data.
+(** [Blob::read]; [log_size] bounds the fuel of the copy loop *)
+Definition blob_read (log_size : N) (offset length : N) : rprog (list N) :=
+  (r_seek offset ;;;
+   b <- rd 16 ;;
+   if negb (byte_at b 0 =? 0) then rfail EInvalid else
+   let section_length := le_num (slice 8 8 b) in
+   if N.min (section_length + 16) U64_MAX <? length then rfail EInvalid else
+   data <- copy_loop (S (N.to_nat (N.min length log_size))) length [] ;;
+   if negb (len data =? length) then rfail EInvalid else
+   rret data)%rprog.
 
 (** * Writer, binary side *)
 Inductive item :=
@@ -81,47 +81,46 @@ Inductive item_out :=
 | OBlob (offset length : N)
 | OPc (offset records : N).
 
-Fixpoint add_points (points : list (list rvalue)) (w : pcw) : M pw pcw :=
+Fixpoint add_points (points : list (list rvalue)) (w : pcw) : wprog pcw :=
   match points with
-  | [] => ret w
-  | p :: r => w' <- pcw_add_point p w ;; add_points r w'
+  | [] => wret w
+  | p :: r => (w' <- pcw_add_point p w ;; add_points r w')%wprog
   end.
 
-Definition item_write (i : item) : M pw item_out :=
+Definition item_write (i : item) : wprog item_out :=
   match i with
-  | IBlob data => '(o, l) <- blob_write data ;; ret (OBlob o l)
+  | IBlob data => ('(o, l) <- blob_write data ;; wret (OBlob o l))%wprog
   | IPc proto points =>
-      w <- pcw_new proto ;;
-      w1 <- add_points points w ;;
-      '(_, o, n) <- pcw_finalize w1 ;;
-      ret (OPc o n)
+      (w <- pcw_new proto ;;
+       w1 <- add_points points w ;;
+       '(_, o, n) <- pcw_finalize w1 ;;
+       wret (OPc o n))%wprog
   end.
 
-Fixpoint items_write (is : list item) : M pw (list item_out) :=
+Fixpoint items_write (is : list item) : wprog (list item_out) :=
   match is with
-  | [] => ret []
-  | i :: r => o <- item_write i ;; os <- items_write r ;; ret (o :: os)
+  | [] => wret []
+  | i :: r => (o <- item_write i ;; os <- items_write r ;; wret (o :: os))%wprog
   end.
 
 (** [E57Writer::new] after [PagedWriter::new]: the placeholder header *)
-Definition writer_init : M pw unit := header_write 0 0 0.
+Definition writer_init : wprog unit := header_write 0 0 0.
 
 (** [finalize_customized_xml] once the XML text is known *)
-Definition writer_finalize (xml : list N) : M pw unit :=
-  xml_offset <- pw_physical_position ;;
-  wr xml ;;;
-  phys_length <- pw_physical_size ;;
-  pw_physical_seek 0 ;;;
-  header_write phys_length xml_offset (len xml) ;;;
-  relabel EWrite pw_flush.
+Definition writer_finalize (xml : list N) : wprog unit :=
+  (xml_offset <- w_position ;;
+   wr xml ;;;
+   phys_length <- w_size ;;
+   w_seek 0 ;;;
+   header_write phys_length xml_offset (len xml) ;;;
+   w_flush)%wprog.
 
 (** * Reader, binary side *)
 Definition MAX_XML_SIZE : N := 1024 * 1024 * 10.
 
-Definition extract_xml (offset length : N) : M pr (list N) :=
-  if MAX_XML_SIZE <? length then fail ENotImpl else
-  relabel ERead (pr_seek_physical offset) ;;;
-  rd length.
+Definition extract_xml (offset length : N) : rprog (list N) :=
+  if MAX_XML_SIZE <? length then rfail ENotImpl else
+  (r_seek offset ;;; rd length)%rprog.
 
 (** [E57Reader::new] up to and including the XML bytes *)
 Definition reader_open (d : dev) : dev * res (pr * header * list N) :=
@@ -131,7 +130,7 @@ Definition reader_open (d : dev) : dev * res (pr * header * list N) :=
       let '(d2, r2) := pr_new (h_page_size h) d1 in
       match res_relabel ERead r2 with
       | Ok s =>
-          let '(s1, r3) := extract_xml (h_xml_offset h) (h_xml_length h) s in
+          let '(s1, r3) := rrun (extract_xml (h_xml_offset h) (h_xml_length h)) s in
           match r3 with
           | Ok xml => (pr_dev s1, Ok (s1, h, xml))
           | Err k => (pr_dev s1, Err k)
@@ -151,11 +150,11 @@ Definition get_u64 (offset : N) : M dev N :=
   ret (le_num b).
 
 (** the page loop of [validate_crc]: one buffer-sized read per iteration *)
-Fixpoint validate_loop (fuel : nat) (page_size : N) : M pr unit :=
+Fixpoint validate_loop (fuel : nat) (page_size : N) : rprog unit :=
   match fuel with
-  | O => ret tt
-  | S f => got <- relabel ERead (pr_read page_size) ;;
-           match got with [] => ret tt | _ => validate_loop f page_size end
+  | O => rret tt
+  | S f => (got <- r_read ERead page_size ;;
+            match got with [] => rret tt | _ => validate_loop f page_size end)%rprog
   end.
 
 (** [E57Reader::validate_crc] *)
@@ -166,7 +165,7 @@ Definition validate_crc (d : dev) : dev * res N :=
       let '(d2, r2) := pr_new page_size d1 in
       match res_relabel ERead r2 with
       | Ok s =>
-          let '(s1, r3) := validate_loop (S (S (N.to_nat (pr_pages s)))) page_size s in
+          let '(s1, r3) := rrun (validate_loop (S (S (N.to_nat (pr_pages s)))) page_size) s in
           (pr_dev s1, res_map (fun _ => page_size) r3)
       | Err k => (d2, Err k)
       | Panic => (d2, Panic)
@@ -182,7 +181,7 @@ Definition raw_xml (d : dev) : dev * res (list N) :=
   | Ok (ps, xo, xl) =>
       let '(d2, r2) := pr_new ps d1 in
       match res_relabel ERead r2 with
-      | Ok s => let '(s1, r3) := extract_xml xo xl s in (pr_dev s1, r3)
+      | Ok s => let '(s1, r3) := rrun (extract_xml xo xl) s in (pr_dev s1, r3)
       | Err k => (d2, Err k)
       | Panic => (d2, Panic)
       end
